@@ -250,10 +250,104 @@ class FlushGen:
         return out
 
 
+# ---- input classes of the two defects found by this check (notes/findings/C17-*.md) ---------------
+def class_stale_desc(hdr, items):
+    """a task T2 placed on rank b writes a tile whose previous writer ran on a rank != q and that was read by a
+       task of rank q in between, with b != q: rank q releases its descriptor of T2 when the next writer of the
+       tile is inserted although the reader on q still points to it as its descendant; harmful when the
+       descriptor is recycled for a later task foreign to q with the same number of flows that READS at the
+       flow position where T2 wrote (the successor walk then follows a foreign chain: hang)"""
+    nd, owner, R = hdr["ndata"], hdr["owner"], hdr["ranks"]
+    if R == 1:
+        return False
+    phases, phase = [], []
+    for it in items:
+        if it[0] == "!":
+            phases.append(phase)
+            phase = []
+        else:
+            phase.append(it)
+    phases.append(phase)
+    for ph in phases:
+        for q in range(R):
+            lw = [None] * nd          # rank of the last writer of the tile (None: new tile -> fake writer on the owner)
+            rq = [False] * nd         # a task of q read the tile since its last writer
+            cands = []                # (position, flow index, number of flows) of T2
+            for pos, it in enumerate(ph):
+                if it[0] == "T":
+                    _, rank, acc, aff = it
+                    for i, (d, m) in enumerate(acc):
+                        lwr = owner[d] if lw[d] is None else lw[d]
+                        if m == "r":
+                            if rank == q:
+                                rq[d] = True
+                        else:
+                            if lwr != q and rq[d] and rank != q:
+                                cands.append((pos, i, len(acc)))
+                            lw[d] = rank
+                            rq[d] = False
+                elif it[0] == "F":
+                    for d in (range(nd) if it[1] is None else [it[1]]):
+                        lw[d] = None
+                        rq[d] = False
+            for (pos, i, k) in cands:
+                for it in ph[pos + 1:]:
+                    if it[0] == "T" and it[1] != q and len(it[2]) == k and it[2][i][1] == "r":
+                        return True
+    return False
+
+
+def class_overwrite(hdr, items):
+    """a task of the owner reads the tile in the owner's storage (no task placed elsewhere wrote it since the tile
+       was created / flushed), a task placed elsewhere writes the tile later, before the next wait: the receive
+       side of the flush overwrites the owner's storage without waiting for that reader"""
+    nd, owner = hdr["ndata"], hdr["owner"]
+    if hdr["ranks"] == 1:
+        return False
+    inplace = [True] * nd
+    pend = [False] * nd
+    for it in items:
+        if it[0] == "T":
+            _, rank, acc, aff = it
+            for (d, m) in acc:
+                if m == "r":
+                    if rank == owner[d] and inplace[d]:
+                        pend[d] = True
+                elif rank != owner[d]:
+                    if inplace[d] and pend[d]:
+                        return True
+                    inplace[d] = False
+        elif it[0] == "F":
+            for d in (range(nd) if it[1] is None else [it[1]]):
+                inplace[d] = True
+        else:
+            pend = [False] * nd
+    return False
+
+
+def defect_classes(case):
+    try:
+        hdr, items = parse_case(case)
+    except Exception:
+        return (False, False)
+    return (class_stale_desc(hdr, items), class_overwrite(hdr, items))
+
+
+def repo_has(relpath, marker):
+    import vcheck
+    try:
+        return marker in open(os.path.join(vcheck.REPO, relpath)).read()
+    except OSError:
+        return False
+
+
 class C17(Check):
     id = "C17"
     prop_file = "theories/Properties/Properties_C17.v"
-    theorems = ()
+    theorems = ("C17_owner_copy_after_wait", "C17_flush_brings_version_home", "C17_owner_copy_final",
+                "C17_flush_transparent", "C17_observations_sequential", "C17_last_written_value",
+                "C17_flush_call_brings_home", "C17_flush_all_call_brings_home",
+                "C17_flush_all_returns_last_written", "C17_progress")
     comp = "dtdflush"
     extract_file = "theories/Extract/Extract_DTDFlush.v"
     extracted = ("dtdflush",)
@@ -261,12 +355,66 @@ class C17(Check):
     link_parsec = True
     styles = ("mixed", "mixed", "readers", "chain", "chain", "groups", "wide")
     stall_s = 60
+    defect_stall_s = 25
+    parallel_jobs = 3
+    level_text = ("Theorems over the flush model (DTDFlush/DTDFlushDefs.v, on the DTD engine of C03): tiles have an owner rank, "
+                  "tasks an execution rank; the taskpool holds user tasks and flush-class tasks (INOUT on the tile; the one "
+                  "executed by the owner is the receive side; parsec_dtd_data_flush inserts a send side on the last writer's rank "
+                  "when that is not the owner, then the receive side, and forgets the tile); the state keeps the current version "
+                  "of every tile and the owner's storage, which a task writes only when it runs on the owner and the version is "
+                  "that storage, and into which the receive-side flush copies its input. For EVERY insertion sequence, ownership "
+                  "map, placement, window and EVERY event list (Insert/Begin/End, refused events are no-ops) that respects the "
+                  "API contract (a flushed tile is not named again before a wait): after a wait the owner's storage of every "
+                  "tile whose version is at home - in particular every tile flushed and not written elsewhere since - holds the "
+                  "value of the sequential execution in insertion order, i.e. the output of the last inserted writer or the "
+                  "initial value (C17_owner_copy_after_wait, C17_flush_brings_version_home, C17_last_written_value); at the end "
+                  "of a program that ends with flush_all + wait every owner holds the sequential result of the application's "
+                  "tasks (C17_flush_all_returns_last_written); flushes (of touched or untouched tiles, repeated, anywhere) are "
+                  "transparent (C17_flush_transparent) and every task, also one inserted after a flush, observes the sequential "
+                  "values (C17_observations_sequential); no reachable state is stuck (C17_progress). Partial: one engine for all "
+                  "ranks - the per-rank copies and the messages are not modelled, the multi-rank transport is only observed. "
+                  "Tie T-obs: generated programs run through the real parsec_dtd_insert_task / parsec_dtd_data_flush(_all) / "
+                  "parsec_taskpool_wait under mpiexec -n 1..4; after every wait each owner reports its tiles, every task the "
+                  "values it read; compared with the extracted model (engine folded over a pseudo-random schedule) and decided "
+                  "by a Python replay.")
+    level_note = ("Trusted: Coq kernel, extraction, harness bodies, Open MPI / mpiexec with oversubscription, MPI_Reduce merge of "
+                  "the per-rank observations. The model orders a writer after the earlier readers of the tile on every rank "
+                  "(one global chain); the runtime orders tasks of different ranks only through the data they exchange. Not "
+                  "modelled: remote copies, activation messages, descriptors of remote tasks, the window warm-up. In runs with "
+                  "several ranks parsec_taskpool_wait returns only when every tile that has a user was flushed (a remote last "
+                  "writer keeps a pending action): the generator flushes every such tile before a wait. Two defects of the "
+                  "unchanged tree were found by the differential run (notes/findings/C17-*.md); their input classes are kept "
+                  "out of the differential stream until the repair is in the tree (detected from the sources) and are "
+                  "exercised by directed cases decided by the oracle only.")
+    technique = ("Coq proof (refinement of the generic DTD engine under the wait gate, invariant on the owner's storage, "
+                 "erasure of flush tasks) + observation differential of the real multi-rank DTD runtime against the extracted model")
+    rule = ("1..4 ranks, 1..6 tiles with a generated ownership map (cyclic / one owner / random), 1..4 phases of 0..24 tasks "
+            "(styles of C03: mixed, reader groups, RW chains, independent groups, wide) placed by a rank value (two out of "
+            "three times away from the owner of a written tile) or by PARSEC_AFFINITY on a flow; single-tile flushes after the "
+            "last use of the tile in the phase, flushes of untouched tiles, repeated flushes, flush_all; every phase ends "
+            "with all used tiles flushed and a wait (one rank: also waits without flush); 8 configurations of (ranks, "
+            "threads, scheduler, window); non-trivial = a tile is written by a task placed away from its owner; distinct = case text")
+    trusted = ("harness/h_dtdflush.c: test-owned bodies (values read at entry, F(task, inputs) written at exit), owners "
+               "read their tiles after parsec_taskpool_wait, MPI_Reduce of the observations after parsec_context_wait",
+               "checks/C17.py: Python replay of the case (oracle), independent of the Coq model",
+               "Open MPI 4.1 mpiexec --oversubscribe, one MPI job per configuration")
+    assumptions = ("API contract of parsec_dtd_data_flush: the tile is not named again before a wait (wfb)",
+                   "several ranks: every tile with a user is flushed before a wait",
+                   "a task names a tile at most once; schedulers ll, llp, ip excluded (known findings of C03/C04)",
+                   "every rank inserts the same sequence")
+
+    def __init__(self, tier, seed):
+        super().__init__(tier, seed)
+        fixed = os.environ.get("VERIF_C17_FIXED", "")
+        self.fixed_a = "a" in fixed or repo_has("parsec/interfaces/dtd/overlap_strategies.c", "via_local_reader")
+        self.fixed_b = "b" in fixed or repo_has("parsec/interfaces/dtd/parsec_dtd_data_flush.c",
+                                                "parsec_dtd_data_copy_reader_count(tile->data_copy)")
 
     # ---- running the real code: one MPI job per configuration -------------------------
     def impl_timeout(self):
         return 1500 if self.tier == "quick" else 6000
 
-    def run_group(self, tag, ranks, lines):
+    def run_group(self, tag, ranks, lines, stall):
         res, rest, attempt = [], list(lines), 0
         while rest and attempt < 6:
             cf = "%s.a%d.txt" % (tag, attempt)
@@ -283,15 +431,15 @@ class C17(Check):
             last, seen, why = time.time(), 0, None
             try:
                 while p.poll() is None:
-                    time.sleep(0.1)
+                    time.sleep(0.05)
                     try:
                         n = sum(1 for _ in open(of))
                     except OSError:
                         n = 0
                     if n != seen:
                         seen, last = n, time.time()
-                    elif time.time() - last > self.stall_s + (60 if seen == 0 else 0):
-                        why = "hang: no completion within %d s" % self.stall_s
+                    elif time.time() - last > stall + (90 if seen == 0 else 0):
+                        why = "hang: no completion within %d s" % stall
                         break
             finally:
                 if p.poll() is None:
@@ -320,7 +468,7 @@ class C17(Check):
             rest = rest[len(got):]
             if rest:
                 tail = "".join(ch for ch in err.decode("ascii", "replace").replace("\n", " ")
-                               if " " <= ch <= "~").strip()[-160:]
+                               if " " <= ch <= "~").strip()[-120:]
                 res.append("<impl %s rc=%s: %s>" % (why or "crash", p.returncode, tail))
                 rest = rest[1:]
                 attempt += 1
@@ -329,6 +477,7 @@ class C17(Check):
 
     def run_impl(self, casefile, n):
         cases = [l.rstrip("\n") for l in open(casefile) if l.strip() and not l.startswith("#")]
+        stall = self.defect_stall_s if "-defects-" in os.path.basename(casefile) else self.stall_s
         groups = {}
         for i, c in enumerate(cases):
             try:
@@ -351,14 +500,13 @@ class C17(Check):
         def one(job):
             key, idx = job
             tag = "%s.g%s" % (casefile, "_".join(key))
-            return idx, self.run_group(tag, int(key[0]), [cases[i] for i in idx])
+            return idx, self.run_group(tag, int(key[0]), [cases[i] for i in idx], stall)
         with ThreadPoolExecutor(max_workers=self.parallel_jobs) as ex:
             for idx, res in ex.map(one, jobs):
                 for i, r in zip(idx, res):
                     out[i] = r
-        return [o if o is not None else "<no result>" for o in out][:n] + ["<no result>"] * max(0, n - len(out))
-
-    parallel_jobs = 3
+        out = [o if o is not None else "<no result>" for o in out]
+        return out[:n] + ["<no result>"] * max(0, n - len(out))
 
     # ---- cases --------------------------------------------------------------------------
     def configs(self):
@@ -371,12 +519,19 @@ class C17(Check):
             extra.append((r.range(1, 4), r.pick([1, 2, 3, 4]), r.pick(MAIN_SCHEDS), w, r.range(0, w) if w else 0))
         return base + extra
 
+    def excluded(self, case):
+        a, b = defect_classes(case)
+        return (a and not self.fixed_a) or (b and not self.fixed_b)
+
     def gen_cases(self, per_cfg, maxtasks):
         r = self.rng
         g = FlushGen(r)
         out = []
+        self.cov["generated_in_defect_classes"] = 0
         for (ranks, th, sc, w, h) in self.configs():
-            for _ in range(per_cfg):
+            got, tries = 0, 0
+            while got < per_cfg and tries < 40 * per_cfg:
+                tries += 1
                 ndata = r.range(1, 6)
                 owner = g.owners(ranks, ndata)
                 nph = r.pick([1, 1, 2, 2, 3, 4])
@@ -385,13 +540,66 @@ class C17(Check):
                     nt = r.pick([0, r.range(1, 4), r.range(3, 10), r.range(5, maxtasks)])
                     items += g.phase(ranks, ndata, owner, nt, r.pick(self.styles), ph == nph - 1)
                 spin = r.pick([0, r.range(1, 1000), r.range(1, 1000)])
-                out.append(case_txt(ranks, ndata, th, sc, w, h, spin, owner, items))
+                c = case_txt(ranks, ndata, th, sc, w, h, spin, owner, items)
+                if self.excluded(c):
+                    self.cov["generated_in_defect_classes"] += 1
+                    continue
+                out.append(c)
+                got += 1
         return out
 
     def cases(self):
+        fixed = self.directed_cases() if (self.fixed_a and self.fixed_b) else []
         if self.tier == "quick":
-            return self.gen_cases(14, 24)
-        return self.gen_cases(120, 60)
+            return fixed + self.gen_cases(14, 24)
+        return fixed + self.gen_cases(120, 60)
+
+    # directed inputs of the two defect classes (minimised from generated cases)
+    def directed_cases(self):
+        pp = " ; ".join(["@0 0x ; @1 0x"] * 4 + ["@0 0x"])
+        return [
+            # stale descriptor: rank 0 reads tile 1 between the writers T0 (rank 2) and T2 (rank 1); T2's descriptor
+            # on rank 0 is recycled for T4, whose first flow is a read
+            "dtdflush 3 2 1 ap 0 0 0 1,0 | @2 0x 1x ; 1r^ 0r ; @1 1w 0r ; @1 1x ; 0r^ 1r",
+            "dtdflush 3 2 2 lfq 0 0 0 1,0 | @2 0x 1x ; 1r^ 0r ; @1 1w 0r ; @1 1x ; 0r^ 1r ; F* ; ! ; 0r^ ; 1r^",
+            # in-place reader of tile 1 on its owner (rank 1) that waits for tile 0 to travel 0 -> 1 nine times,
+            # a later writer of tile 1 on rank 0 and the flush
+            "dtdflush 2 2 2 lfq 0 0 7 0,1 | %s ; @1 0r 1r ; @0 1w ; F1 ; F*" % pp,
+            "dtdflush 2 2 1 lfq 0 0 0 0,1 | %s ; @1 0r 1r ; @0 1w ; F1 ; F*" % pp,
+            "dtdflush 2 2 2 lfq 0 0 7 0,1 | %s ; 1r^ 0r ; @0 1x ; F*" % pp,
+        ]
+
+    def defect_cases(self):
+        if self.fixed_a and self.fixed_b:
+            return []            # the directed cases are part of the differential stream
+        out = []
+        for c in self.directed_cases():
+            a, b = defect_classes(c)
+            if (a and not self.fixed_a) or (b and not self.fixed_b):
+                out.append(c)
+        return out
+
+    def main_flow(self):
+        fails, oracle_fail, cases, impl, model = super().main_flow()
+        extra = [] if os.environ.get("VERIF_DTD_SKIP_DEFECTS") else list(self.defect_cases())
+        ran = bool(impl) and len(impl) == len(cases)
+        if extra and ran:
+            eimpl, emodel = self.correspond(extra, "defects")
+            hits = 0
+            for i, (c, a) in enumerate(zip(extra, eimpl)):
+                why = self.oracle(c, a)
+                if why:
+                    hits += 1
+                    oracle_fail.append((len(cases) + i, why))
+            self.cov["defect_stream"] = {"cases": len(extra), "violations": hits,
+                                         "note": "directed inputs of the two defect classes found by this check (stale "
+                                                 "descriptor of a remote task, flush overwriting a tile under a reader); "
+                                                 "decided by the oracle only, not diffed with the model"}
+            cases = cases + extra
+            impl = impl + eimpl
+            model = model + emodel
+        self.cov["repairs_detected_in_sources"] = {"stale-remote-desc": self.fixed_a, "flush-overwrites-reader": self.fixed_b}
+        return fails, oracle_fail, cases, impl, model
 
     def oracle(self, case, obs):
         v = verdict(case, obs)
@@ -399,22 +607,65 @@ class C17(Check):
 
     def signature(self, case, obs):
         v = verdict(case, obs)
-        try:
-            multi = "multirank" if int(case.split()[1]) > 1 else "1rank"
-        except Exception:
-            multi = "bad"
-        return "%s-%s" % (v[0] if v else "none", multi)
+        kind = v[0] if v else "none"
+        if kind in ("owner-copy", "task-input"):
+            kind = "value"
+        a, b = defect_classes(case)
+        if a and b:
+            cls = "flush-overwrites-reader" if kind == "value" else "stale-remote-desc"
+        elif a:
+            cls = "stale-remote-desc"
+        elif b:
+            cls = "flush-overwrites-reader"
+        else:
+            cls = "main"
+        return "%s-%s" % (cls, kind)
 
     def nontrivial_key(self, case):
-        # non trivial: some tile is written by a task placed on a rank that does not own it and flushed afterwards
+        # non trivial: some tile is written by a task placed on a rank that does not own it (and flushed afterwards)
         try:
             hdr, items = parse_case(case)
         except Exception:
             return None
-        remote = set()
         for it in items:
             if it[0] == "T":
                 for (d, m) in it[2]:
                     if m != "r" and it[1] != hdr["owner"][d]:
-                        remote.add(d)
-        return case if remote else None
+                        return case
+        return None
+
+    def dist(self, cases):
+        d = {"cases": len(cases), "ranks": {}, "threads": {}, "sched": {}, "window": {}, "tasks_hist": {},
+             "flush_single": 0, "flush_all": 0, "waits": 0, "tasks_placed_off_owner_of_written_tile": 0,
+             "affinity_on_flow": 0, "max_tasks": 0}
+        for c in cases:
+            try:
+                hdr, items = parse_case(c)
+            except Exception:
+                continue
+            nt = sum(1 for it in items if it[0] == "T")
+            b = "0-8" if nt <= 8 else "9-30" if nt <= 30 else "31+"
+            d["tasks_hist"][b] = d["tasks_hist"].get(b, 0) + 1
+            d["max_tasks"] = max(d["max_tasks"], nt)
+            for k in ("ranks", "threads", "sched", "window"):
+                d[k][str(hdr[k])] = d[k].get(str(hdr[k]), 0) + 1
+            for it in items:
+                if it[0] == "F":
+                    d["flush_all" if it[1] is None else "flush_single"] += 1
+                elif it[0] == "!":
+                    d["waits"] += 1
+                else:
+                    d["affinity_on_flow"] += it[3] is not None
+                    d["tasks_placed_off_owner_of_written_tile"] += any(m != "r" and it[1] != hdr["owner"][x] for (x, m) in it[2])
+        return d
+
+    def search_cases(self):
+        # directed small programs: every placement of writer / reader / second writer on 3 ranks for one tile,
+        # with the flush in the middle or at the end
+        out = []
+        for own in range(3):
+            for a in range(3):
+                for b in range(3):
+                    out.append("dtdflush 3 2 2 lfq 0 0 5 %d,%d | @%d 0x ; @%d 0r 1x ; F0 ; @%d 1r ; F* ; ! ; 0r^ 1x ; @%d 0x"
+                               % (own, (own + 1) % 3, a, b, a, b))
+        return [c for c in out if not self.excluded(c)]
